@@ -39,7 +39,7 @@ def emitted_size(F, fn, nd, loop_sum):
     ps = nd.get("params", [])
     targs = nd.get("targs") or []
     if len(args) == 2 and ps and ps[0].get("ptr"):
-        return linear(fn.term(args[1]))
+        return linear(fn.xterm(args[1]))
     if len(args) == 1 and len(targs) == 1 and targs[0].get("size_bits") and not (targs[0].get("record") or "").startswith("std::vector"):
         return {}, targs[0]["size_bits"] // 8
     raise AnalysisBroken("R-ACCT: cannot size the write at %s" % fn.loc(nd["id"]))
@@ -77,7 +77,7 @@ def vol_accounting(F, S):
         total = add(total, emitted_size(F, wh, c, None))
         a0 = wh.term(c["args"][0])
         if a0[0] == "ctor" and (a0[1] or "").endswith("SectionHeader") and len(a0[2]) >= 2 and a0[2][0][0] == "global":
-            hdr_lengths[a0[2][0][1].split("::")[-1]] = a0[2][1]
+            hdr_lengths[a0[2][0][1].split("::")[-1]] = wh.through_locals_at(a0[2][1], c["id"])
     # PrepareHeader's accumulation
     from .through import closure
     ph_all = closure(F, ph)
